@@ -22,6 +22,10 @@ def reversed (L : List (K × V)) : List K := (keys L).reverse
 def getitem (L : List (K × V)) (k : K) : Except Err V :=
   match last k L with | some v => .ok v | none => .error .keyError
 
+/-- the text `ClassName([(k, v), (k, v), ...])`: the class name applied to the list display of the pairs -/
+def reprText (cn : String) (rk : K → String) (rv : V → String) (L : List (K × V)) : String :=
+  cn ++ "([" ++ ", ".intercalate (L.map fun p => "(" ++ rk p.1 ++ ", " ++ rv p.2 ++ ")") ++ "])"
+
 /-! mutators -/
 def remove (L : List (K × V)) (k : K) : List (K × V) := L.filter (notK k)
 def setitem (L : List (K × V)) (k : K) (v : V) : List (K × V) := remove L k ++ [(k, v)]
@@ -126,6 +130,8 @@ def hstep (st : HState K V) : HOp K V → HState K V × Out K V
   | .addlistAbort _ _ => (st, .abort)
   | .updateAbort l => (⟨replaceBy st.s l, st.t⟩, .abort)
   | .updateExtendAbort l => (⟨st.s ++ l, st.t⟩, .abort)
+  | .updateMapAbort l => (⟨setAll st.s l, st.t⟩, .abort)
+  | .rejected => (st, .abort)
   | .copyToT => (⟨st.s, st.s⟩, .unit)
   | .copyToS => (st, .unit)
   | .swap => (⟨st.t, st.s⟩, .unit)
